@@ -425,6 +425,23 @@ class C10(ValCheck):
                 vv = dict(v)
                 vv.update(prop="C10", oracle="gap_" + v["oracle"], layers=layers, sig=dict(oracle="gap_" + v["oracle"], kind=v.get("kind")))
                 out["viol"].append(vv)
+        # recorded stripe history (T1 seam): partition of every operator's OFM, receptive field of every stripe
+        from . import stripes
+        for ent in sim["plan"].programs.values():
+            if ent.get("t1") is None:
+                out["counters"]["t1_streams_missing"] = out["counters"].get("t1_streams_missing", 0) + 1
+                continue
+            sv, sc = stripes.check_stream(ent["t1"])
+            for k_, n_ in sc.items():
+                out["counters"][k_] = out["counters"].get(k_, 0) + n_
+            seen_sig = set()
+            for v in sv:
+                key = (v["oracle"], v.get("block_type"))
+                if key in seen_sig:
+                    continue
+                seen_sig.add(key)
+                v.update(layers=layers, sig=dict(oracle=v["oracle"], kind=v.get("block_type")))
+                out["viol"].append(v)
         # striping probe: several NPU ops writing disjoint row ranges of the same OFM extent
         n_striped = 0
         for ent in vc["plan"].programs.values():
